@@ -220,10 +220,13 @@ def corpus(depth, rng, limit):
         for n in (1, 2, 3):
             for _ in range(limit // 6):
                 new.append([rng.choice(prev) for _ in range(n)])
+                if n >= 2 and rng.random() < 0.2:
+                    c = rng.choice([x for x in prev if isinstance(x, (list, dict))] or [[0]])
+                    new.append([c, [c, rng.choice(prev)]] + [rng.choice(prev) for _ in range(n - 2)])
                 if n >= 2 and rng.random() < 0.3:
                     c = rng.choice([x for x in prev if isinstance(x, (list, dict))] or [[0]])
                     new.append([c, c] + [rng.choice(prev) for _ in range(n - 2)])
-                new.append({k: rng.choice(prev) for k in rng.sample(["b", "a", "", "é", "Z", "k k"], n)})
+                new.append({k: rng.choice(prev) for k in rng.sample(["b", "a", "", "é", "Z", "k k", 'q"t', "b\\s", "t\tb"], n)})
         level.append(new)
     return [v for lv in level for v in lv]
 
@@ -238,6 +241,12 @@ def build_value(v, rng, name, stmts):
         stmts.append(A.Declare(V(name + "s"), build_value(v[0], rng, name + "s0", stmts)))
         rest = [build_value(x, rng, name + "r%d" % i, stmts) for i, x in enumerate(v[2:])]
         return A.lst(V(name + "s"), V(name + "s"), *rest)
+    if how == 5 and isinstance(v, list) and len(v) >= 2 and isinstance(v[0], (list, dict)) and isinstance(v[1], list) and v[1] and repr(v[1][0]) == repr(v[0]):
+        # the same container at two different depths
+        stmts.append(A.Declare(V(name + "t"), build_value(v[0], rng, name + "t0", stmts)))
+        inner = [V(name + "t")] + [build_value(x, rng, name + "u%d" % i, stmts) for i, x in enumerate(v[1][1:])]
+        rest = [build_value(x, rng, name + "w%d" % i, stmts) for i, x in enumerate(v[2:])]
+        return A.lst(V(name + "t"), A.lst(*inner), *rest)
     if how == 5:
         how = 0
     if isinstance(v, list):
